@@ -435,6 +435,9 @@ pub struct KnownFinding {
     pub what: String,
     #[serde(default)]
     pub commit: String,
+    /// stored replay file (relative to /verif) that identifies an open finding by its input
+    #[serde(default)]
+    pub replay: String,
 }
 pub fn load_known(property: &str) -> Vec<KnownFinding> {
     let p = verif_root().join("known_findings.json");
@@ -580,17 +583,36 @@ pub fn check<W: Workload>(w: &W, tier: Tier, plan: BatchPlan) -> i32 {
     let known = load_known(w.property());
     let mut violations = 0;
     let mut known_hits = vec![];
+    // every listed open finding is re-executed from its stored replay file
+    for k in &known {
+        if k.replay.is_empty() {
+            continue;
+        }
+        let path = verif_root().join(&k.replay);
+        let still = std::fs::read_to_string(&path)
+            .ok()
+            .and_then(|s| serde_json::from_str::<Value>(&s).ok())
+            .and_then(|v| serde_json::from_value::<W::Case>(v["case"].clone()).ok())
+            .map(|case| {
+                let mut ctx = Ctx::new();
+                matches!(w.execute(&case, &mut ctx), Ok(Outcome { violation: Some((ref s, _)), .. }) if *s == k.signature)
+            });
+        match still {
+            Some(true) => {
+                println!("KNOWN-FINDING: property={} {} [{}] replay={}", w.property(), k.what, k.signature, k.replay);
+                known_hits.push(k.signature.clone());
+            }
+            Some(false) => println!("note: listed open finding no longer reproduces from {} (repaired?): property={} [{}]", k.replay, w.property(), k.signature),
+            None => println!("note: cannot load stored replay {} of listed finding [{}]", k.replay, k.signature),
+        }
+    }
     for f in &r.found {
         if let Some(k) = known.iter().find(|k| k.signature == f.signature) {
-            println!(
-                "KNOWN-FINDING: property={} {} [{}] (run {} seed {})",
-                w.property(),
-                k.what,
-                f.signature,
-                f.index,
-                f.seed
-            );
-            known_hits.push(f.signature.clone());
+            if !known_hits.contains(&f.signature) {
+                println!("KNOWN-FINDING: property={} {} [{}]", w.property(), k.what, f.signature);
+                known_hits.push(f.signature.clone());
+            }
+            println!("note: listed finding [{}] also met in the batch (first at run {} seed {})", f.signature, f.index, f.seed);
             continue;
         }
         violations += 1;
